@@ -159,6 +159,47 @@ func TestP1RoundTrip(t *testing.T) {
 	})
 }
 
+// longStringFont is the base font with one info string of 780 bytes that has
+// a byte needing an escape (or a pair of them) at offset at.
+func longStringFont(at, variant int) *type1.Font {
+	f := baseFont()
+	b := bytes.Repeat([]byte{'x'}, 780)
+	esc := []string{"\\", "(", ")", "\r", "\n", "\x00", "\x80", "\\\\", "\\(", "\r\n", "()", "\\\\\\\\\\\\"}[variant%12]
+	copy(b[at:], esc)
+	switch (variant / 12) % 3 {
+	case 0:
+		f.FontInfo.Notice = string(b)
+	case 1:
+		f.FontInfo.Copyright = string(b)
+	default:
+		f.FontInfo.FullName = string(b)
+	}
+	return f
+}
+
+func TestP2LongStrings(t *testing.T) {
+	rec := ev.New("C09", "longstrings")
+	defer rec.Finish(t)
+	rec.Rule("enumerated: an info string (Notice, Copyright or FullName in turn) of 780 bytes with a backslash, parenthesis, CR, LF, NUL, byte 0x80 or a pair / run of such bytes at EVERY offset 0..760 (wherever the writer wraps, folds or buffers a long string literal, some offset meets the boundary), written in one of the four formats in turn and read back; same comparison as the round-trip part. Every case is non-trivial; distinct by (offset, variant).")
+	k := 0
+	for at := 0; at <= 760; at++ {
+		for v := 0; v < 3; v++ {
+			k++
+			if !ev.Mine(k) {
+				continue
+			}
+			variant := at*3 + v + 36*(at%7)
+			c := &c09case{Font: longStringFont(at, variant), Format: formats[(at+v)%4]}
+			rec.Eval(1)
+			rec.NonTrivial(fmt.Sprint(at, variant))
+			if msg := ev.Safe(func() string { return check(c) }); msg != "" {
+				rec.Violation(false, fmt.Sprintf("escape at offset %d of a 780-byte info string: %s", at, msg), c)
+			}
+		}
+	}
+	rec.Exhaustive()
+}
+
 func TestReplay(t *testing.T) {
 	rc, err := ev.LoadReplay()
 	if err != nil {
